@@ -1549,13 +1549,16 @@ class Data(BaseCartesianData):
           - New components must have the same shape as old components
           - Component subclasses cannot be updated.
         """
+        updates = []
         for comp, data in mapping.items():
             if isinstance(comp, ComponentID):
                 comp = self.get_component(comp)
             data = np.asarray(data)
             if data.shape != self.shape:
                 raise ValueError("Cannot change shape of data")
+            updates.append((comp, data))
 
+        for comp, data in updates:
             comp._data = data
 
         _clear_subset_state_caches()
